@@ -23,6 +23,7 @@ func drivers(quick bool) []conc.Driver {
 		{Chunk: 1, Concurrent: true, Cycles: []int{3}},
 		{Chunk: 2, Concurrent: true, Cycles: []int{4}},
 		{Chunk: 2, Concurrent: true, Cycles: []int{5}},
+		{Chunk: 2, Concurrent: true, Cycles: []int{6}}, // the buffer of the first run comes back and is filled again while later runs are written
 		{Chunk: 2, Concurrent: true, Cycles: []int{5}, After: 16}, // another, larger sorter lived and was cleaned up before
 		{Chunk: 1, Concurrent: true, Cycles: []int{2, 2}},         // the sorter is used again after Clear
 		{Chunk: 2, Concurrent: true, Cycles: []int{3, 3}},
